@@ -15,6 +15,11 @@ class Unsupported(Exception):
     """A construct the engine does not model.  Never a silent approximation: the function is then *undecided*."""
 
 
+class UnsupportedAttribute(Unsupported, AttributeError):
+    """an attribute of a proxy that the engine does not model (an AttributeError for hasattr / getattr-with-default,
+    an Unsupported for the driver: the function is then undecided, not a checker crash)"""
+
+
 class PathEnd(Exception):
     """The current path ended at a cut (loop back edge)."""
 
